@@ -229,7 +229,7 @@ template <class T, int L, glm::qualifier Q> static void run_common_int(pbt::Ctx&
 	// overload mix(T, T, U) and against the documented formula T(U(x) * (1 - a) + U(y) * a); operands small, a in [0,1]: the result is representable
 	{
 		T xs[4], ys[4]; float af = (float)c.unit(), av[4]; double ad = c.unit();
-		for (int i = 0; i < L; ++i) { xs[i] = (T)((long long)x[i] % 1000); ys[i] = (T)((long long)y[i] % 1000); av[i] = (c.draw(4) == 0) ? (float)(c.draw(3)) * 0.5f : (float)c.unit(); }
+		for (int i = 0; i < L; ++i) { xs[i] = std::is_signed<T>::value ? (T)((long long)x[i] % 1000) : (T)((unsigned long long)x[i] % 1000); ys[i] = std::is_signed<T>::value ? (T)((long long)y[i] % 1000) : (T)((unsigned long long)y[i] % 1000); av[i] = (c.draw(4) == 0) ? (float)(c.draw(3)) * 0.5f : (float)c.unit(); }
 		V rf = glm::mix(mkv<V>(xs), mkv<V>(ys), af), rd = glm::mix(mkv<V>(xs), mkv<V>(ys), ad);
 		glm::vec<L, float, Q> va; for (int i = 0; i < L; ++i) va[i] = av[i];
 		V rv = glm::mix(mkv<V>(xs), mkv<V>(ys), va);
